@@ -44,6 +44,10 @@ def region_variants(text, rng, k=3):
     for (a, b, kind, pre, post, forbid) in spans:
         q = pre if kind in ('str', 'dq', 'bt') else None
         cands = [x for x in BODIES if not any(f in (x.replace(q + q, '') if q else x) for f in forbid)]
+        if kind in ('str', 'dq') and q not in text[b:]:
+            # a body ENDING in a backslash: `\'` could be an escaped quote, but when no further quote character follows in
+            # the text the only reading is "backslash, then the closing quote" (the rule backtracks) - still one region
+            cands = cands + ['C:\\tmp;D:\\', ';\\']
         if kind == 'cmt1':
             cands = [x for x in cands if not x.startswith('+')]
         if kind == 'cmtm':
@@ -69,10 +73,10 @@ def run(ctx):
     scripts += splitfam.emit_scripts(ctx, PLAIN, depth, 'C05_emit', simulate=n,
                                      maxlen=30 if quick else 50, minlen=3, seed=ctx.seed * 11 + 3)
     scripts += splitfam.emit_scripts(ctx, ['parensemi'], 3, 'C05_emit_exh', exhaustive_len=5 if quick else 6, softlen=4 if quick else 5)
-    cover = splitfam.cover_scripts(ctx, PLAIN, 5, 'C05_cover', transitions=not quick)
+    cover = splitfam.cover_scripts(ctx, PLAIN, 5, 'C05_cover', transitions=True, memory=1)     # every pair of consecutive moves from every product state
     for i, c in enumerate(cover):
         for j in (range(len(splitfam.PROBES)) if not quick else [i]):
-            scripts.append({'hist': splitfam.with_probe(c['hist'], j)})
+            scripts.append({'hist': splitfam.with_probe(c['hist'], j), 'cover': True})
     ctx.cov['cover_scripts'] = len(cover)
     for w in wit:
         scripts.append({'hist': w['hist'], 'bad': 'model-cex'})
@@ -84,7 +88,8 @@ def run(ctx):
         if key in seen or not hist:
             continue
         seen.add(key)
-        for variant in range(2):
+        is_cover = s.get('cover', False)
+        for variant in ((1,) if is_cover and quick else (0, 1)):
             text = spell(hist, rng, canonical=(variant == 0))
             tr = splitfam.tok_trace(len(traces), text, hist)
             ctx.evals()
@@ -98,7 +103,7 @@ def run(ctx):
             if nfin >= 2 or ninner >= 1:
                 ctx.nontrivial(key)
             # metamorphic: replace opaque region bodies; annotation carries over unchanged
-            if variant == 1:
+            if variant == 1 and not (is_cover and quick and rng.random() < 0.9):
                 for vt, rk, span in region_variants(text, rng, 2 if quick else 3):
                     tv = splitfam.tok_trace(len(traces), vt, hist)
                     ctx.evals()
